@@ -86,6 +86,18 @@ CHECKS = {
              "overwrite-vs-shift. A sanitizer crash makes the C07 run inconclusive (it is C06's verdict).",
         technique="reference-model (bounded std::vector) runtime monitor, exhaustive small-scope + random histories",
     ),
+    "C08": dict(
+        category="exploration", engine="strdrv",
+        text="Python oracle (placeholders = left-to-right non-overlapping `{}` of the format, each replaced once, "
+             "argument text never rescanned) against the real formatter under ASan/UBSan: all format strings over "
+             "{'{','}','a',' '} up to length 7 (quick) / 9 (thorough) x argument counts 0..k+1 x a rotating argument "
+             "pool containing '{}', '{', '}{' x {operator%, args(...)}; str(), conversion and operator<< must agree; "
+             "wrong arity must raise on all three; random typed arguments; messages of raised exceptions (1-6 mixed "
+             "arguments, custom exception type, format object) must be the concatenation.",
+        design_ref="DESIGN.md section 4, C08",
+        note="char / wchar_t formatters other than char are not driven; double arguments use values whose %g text is exact.",
+        technique="reference-function differential monitoring, exhaustive small-scope enumeration under ASan/UBSan",
+    ),
     "C11": dict(
         category="exploration",
         text="Exhaustive over toggle declarations {letter?, reversible?, default none/0/1/3, env unbound/truthy/falsy} "
@@ -140,6 +152,30 @@ CHECKS = {
              "printed unwrapped; ASCII texts only.",
         technique="output monitor: cross-stream differential + structural text oracle under ASan/UBSan",
     ),
+    "C17": dict(
+        category="exploration", engine="strdrv",
+        text="Python oracles (str.split, str.replace incl. the empty pattern, str.startswith, infix.join of the "
+             "non-empty elements) and the three split laws, evaluated on exhaustive strings over {a,b,blank} up to "
+             "length 6 (quick) / 8 (thorough) x separators/patterns up to length 3 (empty included) x replacements up "
+             "to length 2, all lists of 0-4 elements over {'', 'a', 'a ', ' ', 'ab'} x 6 infixes, plus random longer "
+             "inputs; 'returns for every input' is decided by a CPU-time budget with one re-run, under ASan/UBSan.",
+        design_ref="DESIGN.md section 4, C17",
+        note="The empty pattern is judged with Python's semantics (replacement before every character and at the end).",
+        technique="reference-function differential monitoring + CPU-time watchdog, exhaustive small-scope enumeration",
+    ),
+    "C18": dict(
+        category="exploration", engine="ownhist",
+        text="Ownership-history monitor: payload types of three sizes register every live instance by address with a "
+             "type tag checked in the destructor (double destruction, destruction through another type's destructor "
+             "and leaks are seen at the event); a model of slot -> object says after every operation which objects "
+             "must be destroyed by now (exactly when reset, overwritten or the last owner dies). Exhaustive histories "
+             "over 2 slots + a std::vector (reallocation) to depth 4/5, random over 4 slots; optionals: values live at "
+             "distinct addresses, assign-empty empties, reading empty raises. ASan+LSan watch.",
+        design_ref="DESIGN.md section 4, C18",
+        note="After a self-move the pointer may be empty or keep its object (both accepted, but never a leak or a "
+             "double destruction).",
+        technique="history monitor with instance-registry payload types under ASan/LSan",
+    ),
 }
 
 NOT_YET = "check not built yet (work in progress, see DESIGN.md section 8a)"
@@ -178,6 +214,11 @@ def main():
             {"name": "fvmodel", "path": "harness/fvmodel.cpp", "serves_properties": ["C06", "C07"],
              "kind_free_text": "in-process operation-sequence enumerator for fixed_vector with instrumented element "
                                "types, a bounded-sequence reference model and element-throw fault enumeration"},
+            {"name": "strdrv", "path": "harness/strdrv.cpp", "serves_properties": ["C08", "C17"],
+             "kind_free_text": "line-per-operation driver for nitro::lang string functions and nitro::format, batched "
+                               "with per-operation re-run for crash/hang attribution; Python oracles"},
+            {"name": "ownhist", "path": "harness/ownhist.cpp", "serves_properties": ["C18"],
+             "kind_free_text": "in-process ownership-history enumerator for quaint_ptr and lang::optional"},
             {"name": "optdrv", "path": "harness/optdrv.cpp",
              "serves_properties": ["C01", "C02", "C03", "C04", "C11", "C12", "C13", "C14", "C15"],
              "kind_free_text": "script driver for nitro::options built with ASan+UBSan; Python reference model "
